@@ -1431,6 +1431,12 @@ def corpus_cases():
     for files in ([sub1], [sub1, sub2]):
         for keep, exc in (([14], []), ([6], []), ([13], [14]), (None, [14]), (None, [6]), ([14, 13, 12, 0, 6], [13])):
             subs.append({'level': 1, 'files': files, 'keep': keep, 'conv': [[3, 2], [1, 0]], 'exc': exc, 'badmode': False})
+    # the MC exception list is translated with the MC renaming dictionary (exp dictionary empty / different)
+    fmc = {'sch': [[2, 3], [1, 3], [7, 3]], 'rows': [[2 ** 24 + 1, 5, 1], [7, 6, 2]]}
+    for exp_ren in ([], [[2, 9]], [[1, 4]]):
+        for exc_str in (False, True):
+            both.append(dict(base, cfg=[[1, 4], [4, 8], [7, 8]], dsf=[], exp=[fr], mc=[fmc], exp_ren=exp_ren, mc_ren=[[2, 4]],
+                             conv=[[3, 1]], exc=[4], exc_str=exc_str, try_pkl=False))
     return subs + both + [
         # dataset-level analysis field must survive tidy_up (fix 5fbad79)
         dict(base, cfg=[[0, 4]], dsf=[[8, 4]], exp=[f]),
